@@ -15,9 +15,11 @@ There is no CouchDB server and no network in this sandbox: a real CouchDB and ur
 host are NOT exercised.  Level: proof on the protocol model, partial.
 """
 import base64
+import gc
 import http.client
 import json
 import os
+import signal
 import urllib.parse
 
 import common
@@ -87,17 +89,26 @@ def env():
 PARTS = ("pa", "pb")
 
 
+ABSENT_PART = 999      # an optional part that is not set (Property.value / category / id_short is None)
+
+
+def _opt(v):
+    return None if v == ABSENT_PART else v
+
+
 def make_object(ident, a, b, kind):
-    """an Identifiable with two independently changeable parts (a, b): a Submodel carries them in two nested
-    Properties, the other kinds in id_short / category"""
+    """an Identifiable with two independently changeable, optional parts (a, b): a Submodel carries them in the
+    values of two nested Properties, the other kinds in id_short / category; ABSENT_PART = the attribute is None"""
     from basyx.aas import model
     if kind == 1:
         return model.Submodel(ident, id_short="s", submodel_element=[
-            model.Property(PARTS[0], model.datatypes.Int, a), model.Property(PARTS[1], model.datatypes.Int, b)])
+            model.Property(PARTS[0], model.datatypes.Int, _opt(a)), model.Property(PARTS[1], model.datatypes.Int, _opt(b))])
+    ids = None if a == ABSENT_PART else f"v{a}"
+    cat = None if b == ABSENT_PART else f"c{b}"
     if kind == 0:
         return model.AssetAdministrationShell(model.AssetInformation(global_asset_id="urn:g"), ident,
-                                              id_short=f"v{a}", category=f"c{b}")
-    return model.ConceptDescription(ident, id_short=f"v{a}", category=f"c{b}")
+                                              id_short=ids, category=cat)
+    return model.ConceptDescription(ident, id_short=ids, category=cat)
 
 
 def total(a, b):
@@ -108,26 +119,29 @@ def total(a, b):
 def parts_of(o):
     from basyx.aas import model
     if isinstance(o, model.Submodel):
-        return int(o.get_referable(PARTS[0]).value), int(o.get_referable(PARTS[1]).value)
-    return int(o.id_short[1:]), int(o.category[1:])
+        va, vb = o.get_referable(PARTS[0]).value, o.get_referable(PARTS[1]).value
+        return (ABSENT_PART if va is None else int(va)), (ABSENT_PART if vb is None else int(vb))
+    return (ABSENT_PART if o.id_short is None else int(o.id_short[1:]),
+            ABSENT_PART if o.category is None else int(o.category[1:]))
 
 
 def set_part(o, part, v):
     from basyx.aas import model
     if isinstance(o, model.Submodel):
-        o.get_referable(PARTS[part]).value = v
+        o.get_referable(PARTS[part]).value = _opt(v)
     elif part == 0:
-        o.id_short = f"v{v}"
+        o.id_short = None if v == ABSENT_PART else f"v{v}"
     else:
-        o.category = f"c{v}"
+        o.category = None if v == ABSENT_PART else f"c{v}"
 
 
 def json_parts(data):
-    """(a, b) of a stored document's `data` member"""
+    """(a, b) of a stored document's `data` member; a missing member = the optional part is not set"""
     if data.get("modelType") == "Submodel":
-        vals = {e["idShort"]: int(e["value"]) for e in data.get("submodelElements", [])}
+        vals = {e["idShort"]: (int(e["value"]) if "value" in e else ABSENT_PART) for e in data.get("submodelElements", [])}
         return vals[PARTS[0]], vals[PARTS[1]]
-    return int(data["idShort"][1:]), int(data["category"][1:])
+    return (int(data["idShort"][1:]) if "idShort" in data else ABSENT_PART,
+            int(data["category"][1:]) if "category" in data else ABSENT_PART)
 
 
 def json_val(data):
@@ -138,7 +152,34 @@ def gen_of(rev):
     return int(rev.split("-")[0])
 
 
-def run_sdk(case):
+class Hang(BaseException):
+    pass
+
+
+HUNG = []
+
+
+def _alarm(*_):
+    HUNG.append(1)       # the exception below is swallowed when it hits inside a finalizer / __del__
+    raise Hang()
+
+
+def watchdog(f, seconds=30.0):
+    """a call of the SDK that never returns (e.g. a lock taken twice) must not hang the check"""
+    del HUNG[:]
+    old = signal.signal(signal.SIGALRM, _alarm)
+    signal.setitimer(signal.ITIMER_REAL, seconds)
+    try:
+        r = f()
+    finally:
+        signal.setitimer(signal.ITIMER_REAL, 0)
+        signal.signal(signal.SIGALRM, old)
+    if HUNG:
+        raise Hang()
+    return r
+
+
+def _run_sdk(case):
     """Runs the case against the fake.  Returns (trace, first oracle failure or None);
     failure = (step index, op kind, code, message)."""
     from basyx.aas import model
@@ -248,6 +289,17 @@ def run_sdk(case):
     trace = []
     for k, (op, fault) in enumerate(case["ops"]):
         kind = op[0]
+        if kind == "gc":
+            # a run of the cyclic garbage collector at this point of the history (unreferenced temporaries and their
+            # weak references / finalizers go now): nothing the application can see may change.  Not a call of the
+            # model (no trace row).
+            view0 = ({i: couchdb.get_couchdb_revision(url_of(i)) for i in set(ids)}, [(o.source, val_of(o)) for o in objs])
+            gc.collect(1)      # the young generations: where the temporaries of the last calls are (a full run is slow)
+            view1 = ({i: couchdb.get_couchdb_revision(url_of(i)) for i in set(ids)}, [(o.source, val_of(o)) for o in objs])
+            if view1 != view0:
+                bad(k, kind, "gc-changed-client", "a garbage collector run changed the client's view (recorded "
+                    "revisions / objects) although every replica is still referenced")
+            continue
         snap0 = fake.snapshot(db)
         exc = None
         out = None
@@ -572,6 +624,15 @@ def run_sdk(case):
     return trace, (fails[0] if fails else None)
 
 
+def run_sdk(case):
+    """_run_sdk under the watchdog: a hanging SDK call is an oracle failure of its own"""
+    try:
+        return watchdog(lambda: _run_sdk(case))
+    except Hang:
+        return [[[98]]], (0, "hang", "no-termination", "a call of the store / backend did not return within 30 s "
+                                                       "(a lock taken twice?)")
+
+
 def probe_reserved():
     """directed probe for the excluded identifier class of the theorems (known finding)"""
     from basyx.aas.backend import couchdb
@@ -627,7 +688,8 @@ def gen_case(rng, maxlen):
             op = [kind, x]
         elif kind == "modify":
             nextval += 1
-            op = [kind, x, nextval, rng.randrange(2)]         # one of the object's two parts
+            # one of the object's two parts; sometimes the optional part is removed (set to None)
+            op = [kind, x, ABSENT_PART if rng.random() < .12 else nextval, rng.randrange(2)]
         elif kind in ("updatec", "commitc"):
             op = [kind, x, rng.randrange(2)]                  # through the nested element carrying that part
         elif kind == "discard":
@@ -636,9 +698,12 @@ def gen_case(rng, maxlen):
             op = [kind, rng.choice(ids)]
         elif kind == "extput":
             nextval += 1
-            op = [kind, rng.choice(idpool), nextval, rng.randrange(2)]
+            # the second actor changes - or removes - one part of the document
+            op = [kind, rng.choice(idpool), ABSENT_PART if rng.random() < .3 else nextval, rng.randrange(2)]
         else:
             op = [kind]
+        if rng.random() < .04:
+            ops.append([["gc"], None])
         fault = None
         if kind in REQ_COUNT and rng.random() < pfault:
             fault = [rng.randrange(REQ_COUNT[kind]) if rng.random() < .6 else 0, list(rng.choice(FAULTS))]
@@ -659,6 +724,24 @@ def gen_scenario(rng):
     if rng.random() < .4:
         ops.append([["get", a], None])
     v = 20
+    r0 = rng.random()
+    if r0 < .12:
+        # (7) the second actor REMOVES an optional part of a document with a live replica; lookup / update() /
+        #     iteration must show the removal, and the next commit must not write the old value back
+        p = rng.randrange(2)
+        ops += [[["extput", a, ABSENT_PART, p], None],
+                [rng.choice([["update", 0], ["updatec", 0, p], ["get", a], ["iter"]]), None],
+                [["modify", 0, v, 1 - p], None], [rng.choice([["commit", 0], ["commitc", 0, 1 - p]]), None],
+                [["get", a], None], [["extput", a, v + 1, p], None], [["update", 0], None], [["len"], None]]
+        return {"pool": pool, "ops": ops}
+    if r0 < .24:
+        # (8) garbage collector runs at arbitrary points while every replica is still referenced: second lookup of
+        #     a live replica (its decoded temporary is garbage), gc, then commit / safe delete
+        ops += [[["get", a], None], [["gc"], None], [["get", a], None], [["iter"], None], [["gc"], None],
+                [["modify", 0, v, rng.randrange(2)], None],
+                [rng.choice([["commit", 0], ["commitc", 0, 0], ["discard", 0, 1]]), None], [["gc"], None],
+                [["get", a], None], [["len"], None]]
+        return {"pool": pool, "ops": ops}
     if rng.random() < .15:
         # (6) identifiers in prefix relation: discarding one document must not touch what the client knows about the
         #     others - their up-to-date replicas stay committable / safely deletable
@@ -855,7 +938,8 @@ def coq_step(op, fault, rows, ids):
 def coq_parts(case, trace):
     ids = [i for i, _ in case["pool"]]
     pool = coq_list(f"({cstr(i)}, {total(v, 0)})" for i, v in case["pool"])
-    ops = coq_list(coq_step(o, f, rows, ids) for (o, f), rows in zip(case["ops"], trace))
+    calls = [(o, f) for o, f in case["ops"] if o[0] != "gc"]
+    ops = coq_list(coq_step(o, f, rows, ids) for (o, f), rows in zip(calls, trace))
     return pool, ops
 
 
@@ -914,10 +998,17 @@ def run(chk):
         reported = set()
         for case in cases:
             trace, fail = run_sdk(case)
+            if fail and fail[1] == "hang":
+                chk.count("oracle_failures")
+                chk.fail("C16:hang:no-termination", fail[3], {"case": case, "how": "tools/c16.py run_sdk(case)"})
+                chk.cov["stopped_early"] = f"after {len(terms)} of {len(cases)} cases: an SDK call hung"
+                cases = cases[:len(terms)]
+                break
             ops = case["ops"]
             chk.seen(case, nontrivial=len(ops) >= 3)
             chk.count(f"len={min(len(ops), 16)}")
-            for (o, f), t in zip(ops, trace):
+            chk.count("op=gc", sum(1 for o, _ in ops if o[0] == "gc"))
+            for (o, f), t in zip([(o, f) for o, f in ops if o[0] != "gc"], trace):
                 chk.count("op=" + o[0])
                 if f:
                     chk.count("fault=" + "-".join(str(z) for z in f[1]))
@@ -932,7 +1023,10 @@ def run(chk):
                 if sig0 not in reported and len(reported) < 8:
                     reported.add(sig0)
                     small = shrink_ops(case, lambda c: valid(c) and (run_sdk(c)[1] or (0, 0, 0))[1:3] == fail[1:3])
-                    k, kind, code, msg = run_sdk(small)[1]
+                    again = run_sdk(small)[1]
+                    if again is None:       # not reproducible in isolation (e.g. depends on a garbage collector run)
+                        small, again = case, fail
+                    k, kind, code, msg = again
                     chk.fail(f"C16:{kind}:{code}", msg, {"case": small, "failing_step": k,
                                                          "how": "tools/c16.py run_sdk(case) -> (trace, failure)"})
             terms.append(coq_case(case, trace))
